@@ -1,5 +1,6 @@
 import TenpyModel.Util.J
 import TenpyModel.C03.Calls
+import TenpyModel.C03.ExtNet
 open Lean TenpyModel TenpyModel.J
 open TenpyModel.C03
 
@@ -77,4 +78,355 @@ def handle (j : Json) : Except String Json := do
     outs := outs.push (obj [("arrs", ofList (fpArr st.h) st.amap), ("legs", ofList (fpLeg st.h) st.lmap)])
   return obj [("steps", Json.arr outs)]
 
-def main : IO Unit := serve handle
+/-! ## extension: network level (`"net": true`), model `TenpyModel.C03.ExtNet`
+
+in : {"net": true, "cy": bool, "steps": [{"op": …, …}, …]}   — one step = one real call (or one edit by the caller)
+out: {"steps": [{"res": …, "arrs": […], "tls": […], "ss": […], "sls": […], "vls": […], "mps": […], "mpo": […]}, …]}
+Registered objects are addressed by their index in creation order: tensors ("a"), tensor lists ("tl"), singular value
+arrays ("s"), lists of those ("sl"), value lists ("vl"), MPS ("p"), MPO ("H"). After every step the tensors / arrays
+stored in the registered MPS and MPO that are not registered yet are registered in a fixed scan order (the harness
+does the same scan on the real objects). -/
+
+structure NSt where
+  n    : Net := {}
+  amap : List Ref := []
+  tlm  : List Ref := []
+  sm   : List Ref := []
+  slm  : List Ref := []
+  vlm  : List Ref := []
+  pm   : List Ref := []
+  om   : List Ref := []
+  -- import maps: harness cell id -> reference (bufs, lbufs, lists, legs)
+  bmap  : List (Nat × Ref) := []
+  lbmap : List (Nat × Ref) := []
+  lsmap : List (Nat × Ref) := []
+  gmap  : List (Nat × Ref) := []
+
+def tagA (r : Ref) : Nat := 5 * r + 4
+
+def lk (m : List Ref) (what : String) (i : Nat) : Except String Ref :=
+  match m[i]? with
+  | some r => pure r
+  | none => throw s!"unknown {what} {i}"
+
+def optNat (j : Json) : Except String (Option Nat) := optOf getNat j
+
+def parseForm? (j : Json) : Except String Form := do
+  if j.isNull then return none
+  let l ← listOf optNat j
+  return some (l.getD 0 none, l.getD 1 none)
+
+def parseTr (j : Json) : Except String TrHint := do
+  let ok ← getBool (fieldD j "ok" (Json.bool true))
+  let perm ← natList (fieldD j "perm" (Json.arr #[]))
+  let keys ← natList (fieldD j "keys" (Json.arr #[]))
+  let vf ← natList (fieldD j "vf" (Json.arr #[]))
+  return { ok := ok, perm := perm, keys := keys, vf := vf }
+
+def parseRawArgs (j : Json) : Except String Args := do
+  let n ← natList (fieldD j "n" (Json.arr #[]))
+  let l ← listOf natList (fieldD j "l" (Json.arr #[]))
+  let b ← listOf getBool (fieldD j "b" (Json.arr #[]))
+  return { n := n, l := l, b := b }
+
+/-- allocate / look up an imported cell -/
+def impCell (m : List (Nat × Ref)) (id : Nat) (next : Nat) : (List (Nat × Ref)) × Ref × Bool :=
+  match m.lookup id with
+  | some r => (m, r, false)
+  | none => (m ++ [(id, next)], next, true)
+
+def importLeg (st : NSt) (j : Json) : Except String NSt := do
+  let id ← getNat (← field j "id")
+  if (st.gmap.lookup id).isSome then return st
+  let sl ← getNat (← field j "sl")
+  let ch ← getNat (← field j "ch")
+  let sub ← natList (fieldD j "sub" (Json.arr #[]))
+  let qconj ← getInt (← field j "qconj")
+  let sorted ← getBool (← field j "sorted")
+  let bunched ← getBool (← field j "bunched")
+  let mut st := st
+  let mut h := st.n.h
+  let (m1, rs, new1) := impCell st.lbmap sl h.lbufs.length
+  if new1 then h := { h with lbufs := h.lbufs ++ [[sl]] }
+  let (m2, rc, new2) := impCell m1 ch h.lbufs.length
+  if new2 then h := { h with lbufs := h.lbufs ++ [[ch]] }
+  let subs ← sub.mapM fun s => match st.gmap.lookup s with
+    | some r => pure r
+    | none => throw s!"import: unknown sub leg {s}"
+  let g := h.legs.length
+  h := { h with legs := h.legs ++ [{ slices := rs, charges := rc, qconj := qconj, sorted := sorted, bunched := bunched, sub := subs }] }
+  st := { st with n := { st.n with h := h }, lbmap := m2, gmap := st.gmap ++ [(id, g)] }
+  return st
+
+def importArr (st : NSt) (j : Json) : Except String NSt := do
+  let legsList ← getNat (← field j "legs_list")
+  let legs ← natList (← field j "legs")
+  let qtotal ← getNat (← field j "qtotal")
+  let labels ← getNat (← field j "labels")
+  let data ← getNat (← field j "data")
+  let blocks ← natList (← field j "blocks")
+  let qdata ← getNat (← field j "qdata")
+  let keys ← natList (← field j "keys")
+  let dtype ← getNat (← field j "dtype")
+  let qsorted ← getBool (← field j "qsorted")
+  let mut h := st.n.h
+  let mut bm := st.bmap
+  let mut lm := st.lsmap
+  let legRefs ← legs.mapM fun s => match st.gmap.lookup s with
+    | some r => pure r
+    | none => throw s!"import: unknown leg {s}"
+  let (lm1, rLegs, n1) := impCell lm legsList h.lists.length
+  lm := lm1
+  if n1 then h := { h with lists := h.lists ++ [legRefs] }
+  let (bm1, rQt, n2) := impCell bm qtotal h.bufs.length
+  bm := bm1
+  if n2 then h := { h with bufs := h.bufs ++ [[qtotal]] }
+  let (bm2, rLab, n3) := impCell bm labels h.bufs.length
+  bm := bm2
+  if n3 then h := { h with bufs := h.bufs ++ [[labels]] }
+  let (bm3, rQd, n4) := impCell bm qdata h.bufs.length
+  bm := bm3
+  if n4 then h := { h with bufs := h.bufs ++ [keys] }
+  let mut blkRefs : List Ref := []
+  for b in blocks do
+    let (bm4, rb, n5) := impCell bm b h.bufs.length
+    bm := bm4
+    if n5 then h := { h with bufs := h.bufs ++ [[b]] }
+    blkRefs := blkRefs ++ [rb]
+  let (lm2, rData, n6) := impCell lm data h.lists.length
+  lm := lm2
+  if n6 then h := { h with lists := h.lists ++ [blkRefs] }
+  let a := h.arrs.length
+  h := { h with arrs := h.arrs ++ [{ legs := rLegs, qtotal := rQt, labels := rLab, data := rData, qdata := rQd,
+                                      dtype := dtype, qsorted := qsorted }] }
+  return { st with n := { st.n with h := h }, bmap := bm, lsmap := lm, amap := st.amap ++ [a] }
+
+def resJson (st : NSt) (kind : String) : Res → Json
+  | .none_ => obj [("none", Json.bool true)]
+  | .err c => obj [("err", c)]
+  | .ok r =>
+    let idx (m : List Ref) : Json := match m.findIdx? (· == r) with
+      | some i => (i : Nat)
+      | none => Json.null
+    if kind == "a" then obj [("a", idx st.amap)]
+    else if kind == "s" then obj [("s", idx st.sm)]
+    else if kind == "p" then obj [("p", idx st.pm)]
+    else if kind == "H" then obj [("H", idx st.om)]
+    else obj [("v", r)]
+
+/-- register unseen tensors / singular value arrays stored in the registered MPS and MPO (fixed scan order) -/
+def scan (st : NSt) : NSt := Id.run do
+  let mut st := st
+  for p in st.pm do
+    let P := st.n.mpsO p
+    for b in st.n.tlist P.B do
+      if !st.amap.contains b then st := { st with amap := st.amap ++ [b] }
+    for s in st.n.slist P.S do
+      match s with
+      | some r => if !st.sm.contains r then st := { st with sm := st.sm ++ [r] }
+      | none => pure ()
+  for H in st.om do
+    for w in st.n.tlist (st.n.mpoO H).W do
+      if !st.amap.contains w then st := { st with amap := st.amap ++ [w] }
+  return st
+
+def tagS (r : Ref) : Nat := 7 * r + 1
+def tagTL (r : Ref) : Nat := 7 * r + 2
+def tagSL (r : Ref) : Nat := 7 * r + 3
+def tagVL (r : Ref) : Nat := 7 * r + 4
+
+def fpArrN (h : Heap) (a : Ref) : Json :=
+  let A := h.arr a
+  obj [("id", tagA a), ("legs_list", tagL A.legs), ("legs", ofList (fpLeg h) (h.list A.legs)), ("qtotal", tagB A.qtotal),
+       ("labels", tagB A.labels), ("data", tagL A.data), ("blocks", ofNatList ((h.list A.data).map tagB)),
+       ("qdata", tagB A.qdata), ("nq", (h.buf A.qdata).length), ("keys", ofNatList (h.buf A.qdata)), ("dtype", A.dtype)]
+
+def fpTL (n : Net) (r : Ref) : Json := obj [("id", tagTL r), ("items", ofNatList ((n.tlist r).map tagA))]
+def fpSL (n : Net) (r : Ref) : Json :=
+  obj [("id", tagSL r), ("items", ofList (fun (s : Option Ref) => match s with | some x => (tagS x : Json) | none => Json.null) (n.slist r))]
+def fpVL (n : Net) (r : Ref) : Json := obj [("id", tagVL r), ("vals", ofNatList (n.vlist r))]
+def fpS (n : Net) (r : Ref) : Json := obj [("id", tagS r), ("vals", ofNatList (n.sbuf r))]
+
+def fpMps (n : Net) (p : Ref) : Json :=
+  let P := n.mpsO p
+  obj [("B", fpTL n P.B), ("S", fpSL n P.S), ("form", fpVL n P.form), ("sites", fpVL n P.sites), ("bc", P.bc), ("dtype", P.dtype)]
+def fpMpo (n : Net) (H : Ref) : Json :=
+  let O := n.mpoO H
+  obj [("W", fpTL n O.W), ("IdL", fpVL n O.IdL), ("IdR", fpVL n O.IdR), ("sites", fpVL n O.sites), ("bc", O.bc), ("dtype", O.dtype)]
+
+def parseIdArg (st : NSt) (j : Json) : Except String IdArg := do
+  if j.isNull then return .none_
+  match (j.getObjVal? "list").toOption with
+  | some l => return .list (← lk st.vlm "value list" (← getNat l))
+  | none => return .scalar (← getNat (← field j "scalar"))
+
+def netStep (cy : Bool) (st : NSt) (j : Json) : Except String (NSt × Json) := do
+  let op ← getStr (← field j "op")
+  let nat (k : String) : Except String Nat := do getNat (← field j k)
+  let int (k : String) : Except String Int := do getInt (← field j k)
+  let bool (k : String) : Except String Bool := do getBool (← field j k)
+  let n := st.n
+  if op == "import" then
+    let mut st := st
+    for l in ← getArr (fieldD j "legs" (Json.arr #[])) do st ← importLeg st l
+    for a in ← getArr (fieldD j "arrs" (Json.arr #[])) do st ← importArr st a
+    return (st, resJson st "-" .none_)
+  else if op == "arr" then
+    let ds : DSt := { h := n.h, amap := st.amap }
+    let ds ← doStep cy ds (← getArr (← field j "calls"))
+    let st := { st with n := { n with h := ds.h }, amap := ds.amap }
+    return (st, resJson st "-" .none_)
+  else if op == "mk_tl" then
+    let items ← (← natList (← field j "items")).mapM (lk st.amap "tensor")
+    let st := { st with n := { n with tl := n.tl ++ [items] }, tlm := st.tlm ++ [n.tl.length] }
+    return (st, resJson st "-" .none_)
+  else if op == "edit_tl" then
+    let r ← lk st.tlm "tensor list" (← nat "tl")
+    let item ← lk st.amap "tensor" (← nat "item")
+    let st := { st with n := { n with tl := n.tl.set r ((n.tlist r).set (← nat "pos") item) } }
+    return (st, resJson st "-" .none_)
+  else if op == "mk_s" then
+    let vals ← natList (← field j "vals")
+    let st := { st with n := { n with sb := n.sb ++ [vals] }, sm := st.sm ++ [n.sb.length] }
+    return (st, resJson st "-" .none_)
+  else if op == "edit_s" then
+    let r ← lk st.sm "array" (← nat "s")
+    let st := { st with n := { n with sb := n.sb.set r (← natList (← field j "vals")) } }
+    return (st, resJson st "-" .none_)
+  else if op == "mk_sl" then
+    let items ← (← listOf optNat (← field j "items")).mapM fun (x : Option Nat) => match x with
+      | some i => do return some (← lk st.sm "array" i)
+      | none => pure none
+    let st := { st with n := { n with sl := n.sl ++ [items] }, slm := st.slm ++ [n.sl.length] }
+    return (st, resJson st "-" .none_)
+  else if op == "edit_sl" then
+    let r ← lk st.slm "array list" (← nat "sl")
+    let item ← match ← optNat (← field j "item") with
+      | some i => do pure (some (← lk st.sm "array" i))
+      | none => pure none
+    let st := { st with n := { n with sl := n.sl.set r ((n.slist r).set (← nat "pos") item) } }
+    return (st, resJson st "-" .none_)
+  else if op == "mk_vl" then
+    let st := { st with n := { n with vl := n.vl ++ [← natList (← field j "vals")] }, vlm := st.vlm ++ [n.vl.length] }
+    return (st, resJson st "-" .none_)
+  else if op == "edit_vl" then
+    let r ← lk st.vlm "value list" (← nat "vl")
+    let st := { st with n := { n with vl := n.vl.set r ((n.vlist r).set (← nat "pos") (← nat "val")) } }
+    return (st, resJson st "-" .none_)
+  else if op == "mps_init" then
+    let sites ← natList (← field j "sites")
+    let Bs ← lk st.tlm "tensor list" (← nat "Bs")
+    let SVs ← lk st.slm "array list" (← nat "SVs")
+    let fj ← field j "form"
+    let form ← match (fj.getObjVal? "list").toOption with
+      | some l => do pure (FormArg.list (← lk st.vlm "value list" (← getNat l)))
+      | none => do pure (FormArg.one (← getNat (← field fj "one")))
+    let ts ← listOf parseTr (fieldD j "ts" (Json.arr #[]))
+    let (n', r) := mpsInit cy n sites Bs SVs (← nat "bc") form ts (← bool "sane")
+    let st := { st with n := n' }
+    let st := match r with | .ok p => { st with pm := st.pm ++ [p] } | _ => st
+    let st := scan st
+    return (st, resJson st "p" r)
+  else if op == "mps_copy" then
+    let (n', r) := mpsCopy cy n (← lk st.pm "MPS" (← nat "p")) (← getBool (fieldD j "sane" (Json.bool true)))
+    let st := { st with n := n' }
+    let st := match r with | .ok p => { st with pm := st.pm ++ [p] } | _ => st
+    let st := scan st
+    return (st, resJson st "p" r)
+  else if op == "get_B" then
+    let fit ← listOf getBool (fieldD j "fit" (Json.arr #[]))
+    let (n', r) := getB cy n (← lk st.pm "MPS" (← nat "p")) (← int "i") (← parseForm? (← field j "form")) (← bool "copy") (← bool "label_p")
+      (fit.getD 0 true) (fit.getD 1 true)
+    let st := { st with n := n' }
+    let st := match r with | .ok a => if st.amap.contains a then st else { st with amap := st.amap ++ [a] } | _ => st
+    return (st, resJson st "a" r)
+  else if op == "set_B" then
+    let (n', r) := setB cy n (← lk st.pm "MPS" (← nat "p")) (← int "i") (← lk st.amap "tensor" (← nat "B")) (← parseForm? (← field j "form")) (← parseTr (fieldD j "t" (Json.mkObj [])))
+    let st := scan { st with n := n' }
+    return (st, resJson st "-" r)
+  else if op == "get_S" then
+    let r := getS n (← lk st.pm "MPS" (← nat "p")) (← int "i") (← bool "left")
+    return (st, resJson st "s" r)
+  else if op == "set_S" then
+    let s ← match ← optNat (← field j "s") with
+      | some i => do pure (some (← lk st.sm "array" i))
+      | none => pure none
+    let (n', r) := setS n (← lk st.pm "MPS" (← nat "p")) (← int "i") (← bool "left") s
+    let st := scan { st with n := n' }
+    return (st, resJson st "-" r)
+  else if op == "mps_enlarge" then
+    let (n', r) := mpsEnlarge n (← lk st.pm "MPS" (← nat "p")) (← int "factor") (← getBool (fieldD j "sane" (Json.bool true)))
+    let st := scan { st with n := n' }
+    return (st, resJson st "-" r)
+  else if op == "mps_roll" then
+    let (n', r) := mpsRoll n (← lk st.pm "MPS" (← nat "p")) (← int "shift")
+    let st := scan { st with n := n' }
+    return (st, resJson st "-" r)
+  else if op == "mpo_init" then
+    let sites ← natList (← field j "sites")
+    let Ws ← lk st.tlm "tensor list" (← nat "Ws")
+    let (n', r) := mpoInit cy n sites Ws (← nat "bc") (← parseIdArg st (← field j "IdL")) (← parseIdArg st (← field j "IdR")) (← bool "sane")
+    let st := { st with n := n' }
+    let st := match r with | .ok H => { st with om := st.om ++ [H] } | _ => st
+    let st := scan st
+    return (st, resJson st "H" r)
+  else if op == "mpo_copy" then
+    let (n', r) := mpoCopy n (← lk st.om "MPO" (← nat "H"))
+    let st := { st with n := n' }
+    let st := match r with | .ok H => { st with om := st.om ++ [H] } | _ => st
+    let st := scan st
+    return (st, resJson st "H" r)
+  else if op == "get_W" then
+    let (n', r) := getW cy n (← lk st.om "MPO" (← nat "H")) (← int "i") (← bool "copy")
+    let st := { st with n := n' }
+    let st := match r with | .ok a => if st.amap.contains a then st else { st with amap := st.amap ++ [a] } | _ => st
+    return (st, resJson st "a" r)
+  else if op == "set_W" then
+    let (n', r) := setW n (← lk st.om "MPO" (← nat "H")) (← int "i") (← lk st.amap "tensor" (← nat "W"))
+    let st := scan { st with n := n' }
+    return (st, resJson st "-" r)
+  else if op == "get_Id" then
+    let r := getIdLR n (← lk st.om "MPO" (← nat "H")) (← int "i") (← bool "left")
+    return (st, resJson st "v" r)
+  else if op == "edit_Id" then
+    let (n', r) := editId n (← lk st.om "MPO" (← nat "H")) (← bool "left") (← nat "b") (← nat "v")
+    return ({ st with n := n' }, resJson st "-" r)
+  else if op == "mpo_enlarge" then
+    let (n', r) := mpoEnlarge n (← lk st.om "MPO" (← nat "H")) (← int "factor") (← getBool (fieldD j "sane" (Json.bool true)))
+    let st := scan { st with n := n' }
+    return (st, resJson st "-" r)
+  else if op == "mpo_sort" then
+    let hs ← listOf (fun h => do
+      let tr ← parseRawArgs (← field h "tr")
+      let fr ← parseRawArgs (← field h "fresh")
+      let axes ← natList (← field h "axes")
+      return ({ tr := tr, fresh := fr, axes := axes } : SortHint)) (← field j "hs")
+    let perms ← listOf natList (← field j "perms")
+    let (n', r) := mpoSort cy n (← lk st.om "MPO" (← nat "H")) hs perms
+    let st := scan { st with n := n' }
+    return (st, resJson st "-" r)
+  else throw s!"unknown net op {op}"
+
+def fpNet (st : NSt) (res : Json) : Json :=
+  let n := st.n
+  obj [("res", res), ("arrs", ofList (fpArrN n.h) st.amap), ("tls", ofList (fpTL n) st.tlm), ("ss", ofList (fpS n) st.sm),
+       ("sls", ofList (fpSL n) st.slm), ("vls", ofList (fpVL n) st.vlm), ("mps", ofList (fpMps n) st.pm),
+       ("mpo", ofList (fpMpo n) st.om)]
+
+def handleNet (j : Json) : Except String Json := do
+  let cy ← getBool (← field j "cy")
+  let steps ← getArr (← field j "steps")
+  let mut st : NSt := {}
+  let mut outs : Array Json := #[]
+  for sj in steps do
+    let (st', res) ← netStep cy st sj
+    st := st'
+    outs := outs.push (fpNet st res)
+  return obj [("steps", Json.arr outs)]
+
+def handleAll (j : Json) : Except String Json :=
+  match (j.getObjVal? "net").toOption with
+  | some _ => handleNet j
+  | none => handle j
+
+def main : IO Unit := serve handleAll
